@@ -228,6 +228,36 @@ def _task_arbitrary(task):
     return t
 
 
+def _task_big(task):
+    """More than 20 MB of maximum-size packets followed by a truncated tail / stray bytes (the buffer-trim branch must not make
+    the generator fail or lose its place), from a bytes object and from a file object with two read sizes."""
+    t = Tally()
+    body = bytes((i * 13 + 1) & 0xFF for i in range(65536))
+    pkts = [framing.mk_packet(body[:-2] + i.to_bytes(2, "big"), apid=i % 2048, seqcount=i) for i in range(308)]
+    tail = {"truncated": framing.mk_packet(body, apid=7)[:40000], "stray": b"\x00\x01\x02", "complete-small": framing.mk_packet(b"\x05", apid=9)}[task["tail"]]
+    data = b"".join(pkts) + tail
+    want = pkts + ([tail] if task["tail"] == "complete-small" else [])
+    with owned_clock():
+        for kind, r in (("bytes", None), ("bytesio", None), ("bytesio", 1 << 20)):
+            try:
+                with case_alarm(300), observed_warnings():
+                    from space_packet_parser.packets import ccsds_generator
+                    src = data if kind == "bytes" else CountingBytesIO(data)
+                    items, end = pull(ccsds_generator(src, buffer_read_size_bytes=r), horizon=len(want) + 3)
+                    got_ok = end == "stop" and len(items) == len(want) and all(bytes(a) == b for a, b in zip(items, want))
+            except CaseTimeout:
+                got_ok, end, items = False, "timeout", []
+            t.evals += 1
+            t.nontrivial += 1
+            t.outcomes["big:" + ("ok" if got_ok else "bad")] += 1
+            if not got_ok:
+                endk = end if isinstance(end, str) else end[0] + (":" + end[1] if end[0] == "raised" else "")
+                t.violation({"kind": "termination" if end != "stop" else "framing", "source": kind, "end": endk, "big": True},
+                            {"big": task["tail"], "source": kind, "r": r}, observed={"n_items": len(items), "end": end},
+                            note="a stream beyond the 20 MB buffer-trim threshold is not framed/terminated correctly")
+    return t
+
+
 def _real_socketpair_smoke(t: Tally):
     """One deterministic real-socket run (send everything, close, then read).  Smoke test only."""
     import socket
@@ -272,6 +302,7 @@ def run(ctx):
     atasks += [{"strings": ch, "k": 0, "sock": True} for ch in chunked(strings3, 32)]
     atasks += [{"strings": ch, "k": 1, "sock": False} for ch in chunked(strings3, 16)]
     tally.merge(fan_out(_task_arbitrary, atasks, jobs=ctx.jobs, seed=ctx.seed))
+    tally.merge(fan_out(_task_big, [{"tail": x} for x in ("truncated", "stray", "complete-small")], jobs=3, mem_gib=None))
     _real_socketpair_smoke(tally)
     coverage = {
         "states": tally.states,
@@ -315,6 +346,9 @@ def replay(case):
                 return {"sig": {"kind": "termination" if end != "stop" else "framing", "source": "socket"},
                         "case": case, "note": why, "observed": {"n_items": len(got), "end": end}}
             return None
+        if case.get("big"):
+            tb = _task_big({"tail": case["big"]})
+            return tb.violations[0] if tb.violations else None
         if case.get("source") == "real-socketpair":
             _real_socketpair_smoke(t)
         else:
